@@ -17,7 +17,8 @@ type ctxKey struct{}
 // whose initializer fails leaves nothing behind either.
 func H_Release() {
 	cycles := vrt.Param("cycles", 2)
-	nest := vrt.Pick("nest", 0, 1) == 1
+	nestKind := vrt.Pick("nest", 0, 2) // 0: no nested scope, 1: nested with a nil context, 2: nested with a context of its own
+	nest := nestKind != 0
 	how := vrt.Pick("how", 0, 2)    // 0: Close the scope, 1: Close its parent / the outer scope, 2: cancel the caller's context
 	ctxKind := vrt.Pick("ctx", 0, 2) // 0: nil, 1: background-derived value context, 2: cancellable context kept by the caller
 	life := []int{kit.LScoped, kit.LTransient}[vrt.Pick("life", 0, 1)]
@@ -38,6 +39,10 @@ func H_Release() {
 		kit.FaultNth = vrt.Pick("fnth", 2, 1+cycles) // never the root scope's run during Build
 		kit.FaultKind = vrt.Pick("fkind", 1, 3)
 		vrt.Assume(kit.FaultKind != kit.FaultNil)
+	}
+	if vrt.Param("closeerr", 0) == 1 {
+		// Close methods of the scope's instances fail: the scope is released all the same
+		kit.CloseErrMask = vrt.Pick("cerr", 1, 3)
 	}
 	c := godi.NewCollection()
 	errs := w.Register(c)
@@ -82,7 +87,11 @@ func H_Release() {
 		}
 		sc := outer
 		if nest {
-			inner, err := outer.CreateScope(nil)
+			var ictx context.Context
+			if nestKind == 2 {
+				ictx = context.WithValue(context.Background(), ctxKey{}, -1)
+			}
+			inner, err := outer.CreateScope(ictx)
 			vrt.Assume(err == nil)
 			sc = inner
 		}
